@@ -217,7 +217,12 @@ pub fn run_scenario(sc: &Scenario, policy: Policy, run_id: u64, lines: &mut Vec<
     sched.user("reset", hdr);
 
     let s2 = sched.clone();
-    let notify = Arc::new(move || s2.user("notify", String::new()));
+    // the notification is delivered ("notify"), then the callback lingers ("notify.done" is a second ordering point: a
+    // scheduler rule can keep a user callback from returning, as a slow or blocking callback would)
+    let notify = Arc::new(move || {
+        s2.user("notify", String::new());
+        s2.user("notify.done", String::new());
+    });
     let mut nucleo: Nucleo<Payload> = Nucleo::new(Config::DEFAULT, notify, Some(sc.threads), sc.cols);
     let na = nucleo::verif::nucleo_addrs(&nucleo);
     let named = vec![("canceled".to_string(), na.canceled), ("should_notify".to_string(), na.should_notify)];
@@ -428,6 +433,10 @@ pub fn scenarios(thorough: bool, rng: &mut StdRng) -> Vec<Scenario> {
       vec![(1, vec![Extend(vec![0, 1, 2]), Push(3)])]);
     s("restart-clear-then-drop-during-run", 2, 1, vec![NewInjector(1), StartWriter(0), JoinWriters, Rule("pool", "run.begin", "main", "drop.lock"), Tick(0), DropInjector(1), Restart(true)],
       vec![(1, vec![Extend(vec![0, 1, 2]), Push(3)])]);
+    s("forced-slow-notify-callback", 1, 1, vec![NewInjector(1), StartWriter(0), JoinWriters, Reparse(1), Rule("pool", "notify.done", "main", "tick.retry_lock"), Tick(0), DrainNotified(0)],
+      vec![(1, vec![Extend(vec![0, 1, 2])])]);
+    s("forced-slow-notify-callback-2", 2, 1, vec![NewInjector(1), Reparse(1), Tick(50), StartWriter(0), JoinWriters, Rule("pool", "notify.done", "main", "tick.try_lock_failed"), DrainNotified(0)],
+      vec![(1, vec![Push(1), Push(2)])]);
     s("forced-unlock-before-second-attempt", 1, 1, vec![NewInjector(1), StartWriter(0), JoinWriters, Reparse(1), Rule("pool", "run.unlocked", "main", "tick.retry_lock"), Tick(0), DrainNotified(0)],
       vec![(1, vec![Extend(vec![0, 1, 2])])]);
     s("forced-second-attempt-before-unlock", 1, 1, vec![NewInjector(1), StartWriter(0), JoinWriters, Reparse(1), Rule("pool", "run.end", "main", "tick.retry_lock"), Tick(0), DrainNotified(0)],
